@@ -370,7 +370,8 @@ def _density_half_removed(repo, rep, R, ci, sf) -> bool:
                 sel = sel.func.value
             while isinstance(sel, ast.Subscript) and not any(isinstance(x, ast.Call) for x in ast.walk(sel.slice)):
                 sel = sel.value  # [None, :] and the like
-            removed = isinstance(sel, ast.Subscript) and any(isinstance(x, ast.Call) and (attr_chain(x.func) or "").endswith("where") for x in ast.walk(sel.slice)) and not stores
+            removed = isinstance(sel, ast.Subscript) and not stores and any(
+                isinstance(x, (ast.Call, ast.Compare)) or (isinstance(x, ast.UnaryOp) and isinstance(x.op, (ast.Invert, ast.Not))) for x in ast.walk(sel.slice))  # rows chosen by a computed mask / index
             rep.check(R, removed, h.site(p.ret_node), h.fq, "under a density the rows with u + v >= 1 are removed, not mirrored", dump(p.ret)[:80], "density branch keeps all proposals")
             good = True
     return good
